@@ -176,7 +176,7 @@ CHECKS["C12"] = dict(
          "with translation rules before definitions; (b) the bump allocator for EVERY sequence of sizes: growth never changes earlier "
          "offsets or sizes and its output passes the checker. Tied to the code by a walker (arena hook for exact extents) that dumps "
          "the real image of shipped tables, generated tables and tables grown by run-time additions; the extracted checker judges each "
-         "dump. Partial: multipass byte code and match patterns are not walked (the hyphenation automaton is); outside fragment F the statement "
+         "dump. Every rule object (rule hook) is linked where lookups search for it; multipass programs are stepped through (embedded rule references, instruction bounds, variable numbers) and the hyphenation automaton is walked. Partial: match patterns are not walked; outside fragment F the statement "
          "is the checker's verdict per image.",
     design="4/C12", technique="Coq-verified image checker (soundness proof) run on walker dumps of real compiled tables + allocator proof")
 
